@@ -152,10 +152,19 @@ class Evolver:
                 return js
         if kind in ("add_field_default", "add_field_nodefault") and recs:
             p, n, ns, d = recs[0]
-            t = r.choice(list(SAFE_DEFAULT))
-            f = {"name": "added_" + t, "type": t}
-            if kind == "add_field_default":
-                f["default"] = SAFE_DEFAULT[t]
+            t = r.choice(list(SAFE_DEFAULT) + ["arr", "map", "arrb"])
+            if t in ("arr", "map", "arrb"):
+                # collection-typed additions: their defaults are mutable objects of the schema
+                ftype, dflts = {"arr": ({"type": "array", "items": "int"}, [[], [1, 2]]),
+                                "map": ({"type": "map", "values": "string"}, [{}, {"k": "v"}]),
+                                "arrb": ({"type": "array", "items": "bytes"}, [[], ["\u00ff", ""]])}[t]
+                f = {"name": "added_" + t, "type": ftype}
+                if kind == "add_field_default":
+                    f["default"] = copy.deepcopy(r.choice(dflts))
+            else:
+                f = {"name": "added_" + t, "type": t}
+                if kind == "add_field_default":
+                    f["default"] = SAFE_DEFAULT[t]
             if any(x["name"] == f["name"] for x in n.get("fields", [])):
                 return js
             n.setdefault("fields", []).insert(r.randint(0, len(n.get("fields", []))), f)
